@@ -1,6 +1,7 @@
 package main
 
 import (
+	"reflect"
 	"fmt"
 	"strings"
 
@@ -276,6 +277,74 @@ func init() {
 					continue
 				}
 				emit(L(A("msg"), g.term, L(op("unpack", X(packed[:o])), op("get"), op("note", L(A("c19"), A(fmt.Sprint(owner)), L(prior...))))))
+			}
+			// corruption of the length prefix of a subfield of a tagged composite: the failure lies inside that subfield,
+			// so the id path continues with its tag
+			for _, rg := range ranges {
+				cf, ok := fields[rg.id].(*field.Composite)
+				if !ok || cf.Spec().Tag == nil || cf.Spec().Tag.Enc == nil || cf.Spec().Bitmap != nil {
+					continue
+				}
+				func() {
+					defer func() { recover() }()
+					sp := cf.Spec()
+					body, err := cf.Bytes()
+					if err != nil {
+						return
+					}
+					bodyStart := rg.end - len(body)
+					subs := cf.GetSubfields()
+					var tags []string
+					for t := range subs {
+						tags = append(tags, t)
+					}
+					sp.Tag.Sort(tags)
+					pos := bodyStart
+					var prior []*Sx
+					for _, pr := range ranges {
+						if pr.id == rg.id {
+							break
+						}
+						if pr.id != 1 && pr.end > pr.start {
+							vt, _ := parseSx(pr.val)
+							prior = append(prior, L(I(pr.id), vt))
+						}
+					}
+					for _, t := range tags {
+						tb := []byte(t)
+						if sp.Tag.Pad != nil {
+							tb = sp.Tag.Pad.Pad(tb, sp.Tag.Length)
+						}
+						tw, err := sp.Tag.Enc.Encode(tb)
+						if err != nil {
+							return
+						}
+						sub := subs[t]
+						sp2, err := sub.Pack()
+						if err != nil {
+							return
+						}
+						dataStart := pos + len(tw)
+						pos = dataStart + len(sp2)
+						if _, isComp := sub.(*field.Composite); isComp || len(sp2) == 0 {
+							continue
+						}
+						for _, cand := range []byte{0x39, 0xf9, 0x99, 0x7f, 0xff, 0x84} {
+							if packed[dataStart] == cand {
+								continue
+							}
+							mut := append([]byte(nil), packed...)
+							mut[dataStart] = cand
+							probe := reflect.New(reflect.TypeOf(sub).Elem()).Interface().(field.Field)
+							probe.SetSpec(sub.Spec())
+							if _, err := probe.Unpack(mut[dataStart:rg.end]); err == nil {
+								continue
+							}
+							emit(L(A("msg"), g.term, L(op("unpack", X(mut)), op("get"), op("note", L(A("c19p"), A(fmt.Sprint(rg.id)), X([]byte(t)), L(prior...))))))
+							break
+						}
+					}
+				}()
 			}
 		}
 	}
